@@ -75,6 +75,14 @@ def run_case(a):
         if path == "build":
             # the config file is rewritten by the harness before each run with identical bytes; make its mtime old
             pass
+        # somebody's own files appear in the output directory between the runs — empty ones among them, and one that is named like the
+        # tool's writability probe: a re-run with nothing changed leaves them as they are, too
+        planted_probe = idx % 3 == 0
+        if planted_probe:
+            for fn_, text_ in ((".write_test", ""), (".gitkeep", ""), ("NOTES.md", "kept next to the bindings\n"), ("empty.ts.bak", "")):
+                if not os.path.lexists(os.path.join(out, fn_)):
+                    open(os.path.join(out, fn_), "w").write(text_)
+        ign = lambda p_: p_ == ".write_test" and not planted_probe
         # ---- (a) unchanged re-runs in fresh processes under other hash seeds
         for k in range(nsecond):
             hs = None if k == nsecond - 1 else seed * 17 + k + 1
@@ -91,9 +99,9 @@ def run_case(a):
                 continue
             if "up to date" in r2.out:
                 st["up_to_date"] += 1
-            changed = [p for p in d["created"] + d["deleted"] + d["modified"] + d["touched"] if p != ".write_test"]
+            changed = [p for p in d["created"] + d["deleted"] + d["modified"] + d["touched"] if not ign(p)]
             if changed:
-                kinds = sorted(k2 for k2 in d if [p for p in d[k2] if p != ".write_test"])
+                kinds = sorted(k2 for k2 in d if [p for p in d[k2] if not ign(p)])
                 viol.append(("C14 rerun-touches-output path=%s kind=%s files=%s" % (path, "+".join(kinds), "+".join(sorted(set(os.path.basename(p) for p in changed)))[:80]),
                              "unchanged re-run (hash seeds %s -> %s) changed %s" % (seed % 997, hs, {k2: v for k2, v in d.items() if v}), wit))
             mut = [e for e in fsmon.mutating_on(ev, out) if e["ok"]]
@@ -182,7 +190,7 @@ def run_case(a):
                 r3 = common.run(argv, cwd=root, hash_seed=seed * 5 + 11)
                 st["second_runs"] += 1
                 d = fsmon.diff(before, fsmon.snapshot(out))
-                changed = [p for p in d["created"] + d["deleted"] + d["modified"] + d["touched"] if p != ".write_test"]
+                changed = [p for p in d["created"] + d["deleted"] + d["modified"] + d["touched"] if not ign(p)]
                 if r3.rc == 0 and changed:
                     viol.append(("C14 rerun-touches-output path=cli %s" % label, "plain re-run %s on unchanged inputs changed %s" % (label, {k2: v2 for k2, v2 in d.items() if v2}), wit))
         else:
@@ -192,7 +200,7 @@ def run_case(a):
             r3, _ = proj.build_generate(drv, root, hash_seed=seed * 5 + 11)
             st["second_runs"] += 1
             d = fsmon.diff(before, fsmon.snapshot(out))
-            changed = [p for p in d["created"] + d["deleted"] + d["modified"] + d["touched"] if p != ".write_test"]
+            changed = [p for p in d["created"] + d["deleted"] + d["modified"] + d["touched"] if not ign(p)]
             if r3.rc == 0 and changed:
                 viol.append(("C14 rerun-touches-output path=build after-forced-run", "plain re-run after force:true was removed from the configuration changed %s" % {k2: v2 for k2, v2 in d.items() if v2}, wit))
         # ---- (d) optional outputs left over from an earlier state (dependency-graph.* after visualisation was switched off,
@@ -228,7 +236,7 @@ def run_case(a):
                 st["second_runs"] += 1
                 st["reruns_with_visualisation_on"] = st.get("reruns_with_visualisation_on", 0) + 1
                 d = fsmon.diff(before, fsmon.snapshot(out))
-                changed = [p2 for p2 in d["created"] + d["deleted"] + d["modified"] + d["touched"] if p2 != ".write_test"]
+                changed = [p2 for p2 in d["created"] + d["deleted"] + d["modified"] + d["touched"] if not ign(p2)]
                 if rv.rc == 0 and changed:
                     viol.append(("C14 rerun-touches-output path=%s visualisation=on" % path,
                                  "unchanged re-run with dependency visualisation on changed %s" % {k2: v2 for k2, v2 in d.items() if v2}, wit))
@@ -247,7 +255,7 @@ def run_case(a):
                 st["second_runs"] += 1
                 st["reruns_with_leftover_optional_output"] = st.get("reruns_with_leftover_optional_output", 0) + 1
                 d = fsmon.diff(before, fsmon.snapshot(out))
-                changed = [p2 for p2 in d["created"] + d["deleted"] + d["modified"] + d["touched"] if p2 != ".write_test"]
+                changed = [p2 for p2 in d["created"] + d["deleted"] + d["modified"] + d["touched"] if not ign(p2)]
                 if rc_.rc == 0 and changed:
                     viol.append(("C14 rerun-touches-output path=%s leftover=%s" % (path, label),
                                  "unchanged re-run #%d after %s changed %s (stdout tail %r)" % (k + 1, label, {k2: v2 for k2, v2 in d.items() if v2}, rc_.out.strip()[-60:]), wit))
